@@ -6,6 +6,7 @@ use crate::{
     schema::Schema,
     sql::{
         binder::bounds::{AggregateFunction, BoundExpression},
+        parser::ast::BinaryOperator,
         planner::{logical::AggregateExpr, physical::HashAggregateOp},
     },
     storage::tuple::Row,
@@ -51,17 +52,33 @@ impl Accumulator {
             Accumulator::Sum { sum } => {
                 *sum = Some(match sum.take() {
                     None => value.clone(),
-                    Some(current) => current
-                        .add(&value)
-                        .map_err(|e| RuntimeError::Other(format!("Sum error: {}", e)))?,
+                    Some(current) => {
+                        ExpressionEvaluator::check_integer_arithmetic(
+                            BinaryOperator::Plus,
+                            &current,
+                            value,
+                        )
+                        .map_err(|e| RuntimeError::Other(format!("Sum error: {}", e)))?;
+                        current
+                            .add(&value)
+                            .map_err(|e| RuntimeError::Other(format!("Sum error: {}", e)))?
+                    }
                 });
             }
             Accumulator::Avg { sum, count } => {
                 *sum = Some(match sum.take() {
                     None => value.clone(),
-                    Some(current) => current
-                        .add(&value)
-                        .map_err(|e| RuntimeError::Other(format!("Sum error: {}", e)))?,
+                    Some(current) => {
+                        ExpressionEvaluator::check_integer_arithmetic(
+                            BinaryOperator::Plus,
+                            &current,
+                            value,
+                        )
+                        .map_err(|e| RuntimeError::Other(format!("Sum error: {}", e)))?;
+                        current
+                            .add(&value)
+                            .map_err(|e| RuntimeError::Other(format!("Sum error: {}", e)))?
+                    }
                 });
                 *count += 1;
             }
